@@ -16,6 +16,9 @@ SPACES = {
     "n3": dict(nts=("S", "A", "B"), ts=("a", "b"), r=2, k=4),
     # three nonterminals over one terminal: nullable-heavy, small, complete
     "n3a": dict(nts=("S", "A", "B"), ts=("a",), r=2, k=4),
+    # one production with four right-hand-side symbols (reduction paths that
+    # fan out and meet again) + up to two short ones, one terminal
+    "r4": dict(nts=("S", "A"), ts=("a",), r=2, k=3, rlong=4),
 }
 CHUNK = 40
 
@@ -24,7 +27,7 @@ def make_units(plan, chunk=CHUNK):
     """plan rows: dict(space, win, lexmaps, wss, alpha, nmax, **extra)"""
     out = []
     for row in plan:
-        n = len(spaces.grammars(**SPACES[row["space"]]))
+        n = len(spaces.space(SPACES[row["space"]]))
         win = row.get("win")
         idxs = list(range(n)) if win is None else list(
             spaces.window(n, win[0], win[1]))
@@ -48,7 +51,7 @@ def sweep(u, prop, known, check_case, acyclic_only=False, parser_opts=None,
     (grammar, input, table kind)."""
     sp = SPACES[u["space"]]
     nts = sp["nts"]
-    gs = spaces.grammars(**sp)
+    gs = spaces.space(sp)
     inputs = spaces.strings(u["alpha"], u["nmax"])
     mon = Monitor()
     judge = Judge(prop, known)
